@@ -40,6 +40,8 @@ def configs(tier, seed):
                 pre = {"P": P, "k": k, "seed": sd, "peak": 0.3 if sd == 0 else 0.8, "noise": 0.4, "negative": sd == 1}
                 out.append({"name": "vroom-modeb-%s-n%d-h%d-P%d+%d-s%d" % (part, n, hm, P, k, sd), "algo": "VROOM", "part": part, "d": 1, "T": P + k,
                             "params": {"n": n, "h_max": hm, "b": 1, "f_max": 1}, "prefix": pre, "cost": 2 ** hm * 4})
+    for part in ("B", "RB"):
+        out.append({"name": "vroom-%s-d2-n4-h3-T1" % part, "algo": "VROOM", "part": part, "d": 2, "T": 1, "params": {"n": 4, "h_max": 3, "b": 1, "f_max": 1}, "cost": 30})
     out.append({"name": "vroom-B-n4-h3-T2-b2", "algo": "VROOM", "part": "B", "d": 1, "T": 2, "params": {"n": 4, "h_max": 3, "b": 2, "f_max": 3}})
     out.append({"name": "twin-vroom", "algo": "VROOM", "part": "B", "d": 1, "T": 2, "params": {"n": 4, "h_max": 2, "b": 1, "f_max": 1}, "twin": True, "expect_fail": "twin"})
     return out
@@ -58,6 +60,7 @@ class VroomRef(Observer):
         self.part = algo.partition
         ctx.check("vroom:tree_prebuilt", self.part.get_depth() >= self.sd, "the tree was not grown to the ranking depth")
         self.n_rng = len(ctx.rng_log)
+        self.had_children = set(id(x) for x in all_nodes(self.part) if x.get_children() is not None)
 
     def hist(self, n):
         return self.expect.get(id(n), (n, []))[1]
@@ -103,18 +106,25 @@ class VroomRef(Observer):
         cell = index[k]
         self.cell = cell
         # sampled descent
-        signs = [e[1] for e in log if e[0] == "randint" and (e[2], e[3]) == (0, 2)]  # d=1: dimension draws are randint(0,1)
+        # replay the descent from the recorded draws: a cell without children before this pull is split first
+        # (one dimension draw, except for DimensionBinary), then the sign is drawn
+        rints = [e for e in log if e[0] == "randint"]
         path = [cell]
         x = cell
         h = cell.get_depth()
-        si = 0
-        # signs drawn by make_children (dimension choice) come first for d>1; d=1 here: all signs are descent signs
+        ri = 0
+        d = len(cell.get_domain())
+        draws_dim = type(self.part).__name__ != "DimensionBinaryPartition"
         while h < self.hcap:
             ch = x.get_children()
-            if ch is None or si >= len(signs):
+            if ch is None:
                 break
-            x = ch[signs[si]]
-            si += 1
+            if id(x) not in self.had_children and draws_dim:
+                ri += 1  # the dimension draw of make_children
+            if ri >= len(rints):
+                break
+            x = ch[rints[ri][1]]
+            ri += 1
             path.append(x)
             h += 1
         self.path = path
@@ -140,6 +150,7 @@ class VroomRef(Observer):
             if not ok:
                 ctx.fail("vroom:credit", "round %d: cell %s holds %d reward(s), the sampled path credits it with %d" % (t, label(x), len(have), len(want)))
         ctx.count("sym:credit_checked")
+        self.had_children = set(id(x) for x in all_nodes(self.part) if x.get_children() is not None)
 
 
 def run(ctx, cfg):
